@@ -469,6 +469,8 @@ class Normaliser:
             self.note("N17-static-table")
         elif kind == "trait":
             toks = self.strip_quals(toks, "trait")
+        elif kind == "enum":
+            toks = self.strip_quals(toks, "enum")
         elif kind == "struct":
             toks = self.strip_quals(toks, "struct")
             # N2: make fields public
